@@ -164,9 +164,8 @@ def run(R: vlib.Run):
         "at 1, 2 and 4 bits the array handed to cwrite is one-dimensional (read-only and strided ones included): a two-dimensional uint8 array, "
         "C- or Fortran-ordered, is refused there by the packing kernel's signature (TypeError) although it has the file's sample type; at 8, 16 "
         "and 32 bits every layout is exercised",
-        "the complex64 array handed to FourierSeries is contiguous: the constructor keeps a strided complex64 view as it is and to_spec / "
-        "to_fft take data.view(np.float32), which NumPy refuses for a non-contiguous array (ValueError 'the last axis must be contiguous'; the "
-        ".inf of to_fft is already written by then, no .fft / .spec data are); strided TimeSeries and FilterbankBlock inputs are exercised",
+        "strided TimeSeries, FilterbankBlock and FourierSeries inputs are exercised (a Fourier series held as a strided complex64 view is "
+        "copied into C order by to_spec / to_fft before its float pairs are written)",
         "the count clause for .spec accepts the n complex bins or the 2n float32 words (what nsamples means for a Fourier series is C08's "
         "subject); for .fft/.inf the count travels in the .inf and must read back as the header handed to to_fft declared it",
     ]
@@ -563,9 +562,10 @@ def run(R: vlib.Run):
                     fail(f"{name}-values", f".{name} write / read raised {type(e).__name__}: {e}", c)
             z = np.ascontiguousarray(want[: n // 2 * 2]).view(np.complex64).copy()
             nb, nt = z.size, max(2, 2 * (z.size - 1))
-            # (the bins are handed over contiguous: a strided complex64 view is kept as it is by the constructor and to_spec / to_fft
-            #  then raise ValueError from data.view(np.float32) -- refused, nothing written at a wrong width; see R.assume)
-            fs = FourierSeries(z, mk_header(os.path.join(d, "dflt_src.spec"), 1, 32, nt, tsamp, tstart, dm, data_type="time series"))
+            # the bins are handed over as every other item of a buffer twice as long (a strided complex64 view, kept as it is by the constructor)
+            zbig = np.zeros(2 * nb, dtype=np.complex64)
+            zbig[::2] = z
+            fs = FourierSeries(zbig[::2], mk_header(os.path.join(d, "dflt_src.spec"), 1, 32, nt, tsamp, tstart, dm, data_type="time series"))
             wantf = z.view(np.float32)
             for name, wr, rd, inf in (("spec", fs.to_spec, FourierSeries.from_spec, False), ("fft", fs.to_fft, FourierSeries.from_fft, True)):
                 c = dict(case, path=f"FourierSeries.to_{name}()/from_{name}", n=nb, values=small(wantf))
